@@ -34,6 +34,8 @@ fn main() {
                     let run: Runner<syncmgr::Post> = match cfg.backend.as_str() {
                         "r2d2" => Arc::new(move |p, obs| syncmgr::run_path::<syncmgr::R2d2>(&cfg, p, obs)),
                         "sqlite" => Arc::new(move |p, obs| syncmgr::run_path::<syncmgr::Sqlite>(&cfg, p, obs)),
+                        "r2d2_rto" => Arc::new(move |p, obs| syncmgr::run_path::<syncmgr::R2d2Rto>(&cfg, p, obs)),
+                        "sqlite_rto" => Arc::new(move |p, obs| syncmgr::run_path::<syncmgr::SqliteRto>(&cfg, p, obs)),
                         "diesel_verified" => Arc::new(move |p, obs| syncmgr::run_path::<syncmgr::DieselVerified>(&cfg, p, obs)),
                         "diesel_query" => Arc::new(move |p, obs| syncmgr::run_path::<syncmgr::DieselQuery>(&cfg, p, obs)),
                         "diesel_fn" => Arc::new(move |p, obs| syncmgr::run_path::<syncmgr::DieselFn>(&cfg, p, obs)),
